@@ -15,7 +15,7 @@ LEVEL_TEXT = ("Static structural proof of necessary conditions: (R16.1) the thre
               "and the dataset result; (R16.4) the command-line status is non-zero iff the unmodified validate result "
               "is non-empty; (R16.5) applicable sidecars are collected root->leaf and merged forward with later-wins. "
               "The applicability test on entities and equality with per-file validation are NOT decided.")
-LEVEL_EXTRA = "Added after the seeded evaluation: (R16.2) both directory walkers apply the same exclusion test. (R16.6) a data file's sidecar is built from the whole list of sidecars applicable to it. (R16.7) no entity comparison in is_sidecar_for defaults a missing entity to the expected value."
+LEVEL_EXTRA = "Added after the seeded evaluation: (R16.2) both directory walkers apply the same exclusion test. (R16.6) a data file's sidecar is built from the whole list of sidecars applicable to it. (R16.7) no entity comparison in is_sidecar_for defaults a missing entity to the expected value. R16.1 also reports a file-selecting constructor parameter that is stored in a rewritten form."
 
 
 def bind(call, callee, skip_self=False):
@@ -94,6 +94,18 @@ def run(ctx):
             for t in n.targets:
                 if isinstance(t, ast.Attribute) and isinstance(t.value, ast.Name) and t.value.id == "self":
                     field_of[n.value.id] = "self." + t.attr
+        elif isinstance(n, ast.Assign) and not isinstance(n.value, ast.Name):
+            # a file-selecting parameter stored as something other than itself
+            for t in n.targets:
+                if isinstance(t, ast.Attribute) and isinstance(t.value, ast.Name) and t.value.id == "self" \
+                        and t.attr in ("suffix", "exclude_dirs"):
+                    used = {x.id for x in ast.walk(n.value) if isinstance(x, ast.Name)} & {"suffix", "exclude_dirs"}
+                    if used:
+                        field_of.setdefault(t.attr, "self." + t.attr)
+                        ctx.violation("R16.1", init.qualname, n, loc(init, n),
+                                      "the %s given to the group is stored in a rewritten form: the caller's value decides which files "
+                                      "belong to the group (`events` also selects a bare `events.json`), so sidecars the caller selected "
+                                      "are no longer discovered, validated or merged" % t.attr)
     disc = []
     for m in group.methods.values():
         for n in walk_no_nested(m.node):
